@@ -267,7 +267,8 @@ def run_case(case, ctx):
             sig = {'kind': lc.kind, 'op': name, 'c': H.fmt(gc) if gc[0] == 'exc' else 'ok',
                    'py': H.fmt(gp) if gp[0] == 'exc' else 'ok', 'zrole': role,
                    'ztype': _c13._typeclass(z) if role else None, 'kcode': lc.fam[0], 'vcode': lc.fam[1],
-                   'empty': n_before == 0}
+                   'empty': n_before == 0,
+                   'only_none': n_before == 1 and (before_c[0][0] if lc.is_map else before_c[0]) is None}
             desc = 'step %d %r on %s%s (sizes %s, %s)' % (i, op, lc.fam, lc.kind, lc.sizes, lc.mode)
             if role:
                 sig['op'] = name
